@@ -4,7 +4,7 @@ from checks.engine_common import run_engine
 META = {
     "property_id": "C03",
     "technique": "Coq proof over a Gallina model of the build engine + history correspondence with fresh-process builds",
-    "level_text": "Theorems: up_to_date_only_with_current_stamp (for ANY record contents a target is reported up to date only if its own record carries the stamp of its present environment and no re-run mark), crash_preserves_record_truth, recovery_is_never_stale, failed_body_reruns; the model's crash semantics quantifies over every subset of started/recorded targets. Correspondence + oracle: builds killed at every kind of persistence hook (record mkdir/create/write/close/rename, before/after body, index create/write) under a one-slot runner, then the recovery build compared with the model and with a from-scratch build; failing bodies; records always loadable.",
+    "level_text": "Theorems: up_to_date_only_with_current_stamp (for ANY record contents a target is reported up to date only if its own record carries the stamp of its present environment and no re-run mark), crash_preserves_record_truth, recovery_is_never_stale, failed_body_reruns, killed_body_is_marked (every body that ran without its final record is marked for re-run in the state a killed build leaves, given marked-before-run), interrupted_build_converges (after any history ending in a killed build the next successful build leaves exactly the files of a from-scratch build); the model's crash semantics quantifies over every subset of started/recorded/marked targets. Correspondence + oracle: builds killed at every kind of persistence hook (record mkdir/create/write/close/rename, before/after/inside body, index create/write) under a one-slot runner, then the recovery build compared with the model and with a from-scratch build; failing bodies; records always loadable; oracle crash_wf: in every killed build a body that ran without its final record had been marked before (evaluated in Coq on the observed sets).",
     "level_note": 'Trusted: as C01; only process death at hook points is covered (no power loss / fs reordering); rename(2) atomic.',
     "design_ref": "DESIGN.md §6 C03",
 }
